@@ -69,6 +69,14 @@ func init() {
 		mc.Generated += emc.Generated
 		gs = append(gs, dumpEdges("MC_Err", "Dump_Err.cfg")...)
 		st := tourAll(run, gs, 0)
+		// the TLS / AUTH family, lock-step only (a TLS upgrade cannot be pipelined)
+		amc := modelCheck("MC_Auth", "MC_Auth.cfg", 16)
+		mc.Distinct += amc.Distinct
+		mc.Generated += amc.Generated
+		ast := tourAll(run, dumpEdges("MC_Auth", "Dump_Auth.cfg"), 0)
+		st.Covered += ast.Covered
+		st.Edges += ast.Edges
+		st.Convs += ast.Convs
 		per, maxLen := 150, 25
 		if tier == "thorough" {
 			per, maxLen = 2500, 40
